@@ -1,0 +1,30 @@
+//go:build verif
+
+package lime
+
+import "net"
+
+// This file is only compiled with the "verif" build tag. It adds constructors used by the external
+// verification harness and changes nothing else.
+
+// VerifNewTCPTransport builds the regular TCP transport over a caller-supplied connection,
+// in the client or the server role, exactly as DialTcp and the TCP listener's Accept do.
+func VerifNewTCPTransport(conn net.Conn, config *TCPConfig, server bool) Transport {
+	if config == nil {
+		config = &defaultTCPConfig
+	}
+	t := tcpTransport{
+		TCPConfig:  *config,
+		encryption: SessionEncryptionNone,
+		server:     server,
+	}
+	t.setConn(conn)
+	return &t
+}
+
+// VerifNewInProcessTransportPair returns a connected pair of in-process transports without going
+// through the global listener registry.
+func VerifNewInProcessTransportPair(addr InProcessAddr, bufferSize int) (client Transport, server Transport) {
+	c, s := newInProcessTransportPair(addr, bufferSize)
+	return c, s
+}
